@@ -1,5 +1,6 @@
 #!/bin/bash
 # confirm_mutant.sh <worktree> <mdir>  : confirm (1) demo passes without the change, (2) fails with it,
+# env DEMOFLAGS (e.g. --no-default-features) / DEMOARGS (e.g. "-- --test-threads=1") are passed to the demo run.
 # (3) the repository's suite passes with it. Writes <mdir>/confirm.log and prints a one-line verdict.
 wt=$1; m=$2
 cd $wt || exit 2
@@ -12,10 +13,10 @@ crate=$(echo $place | cut -d/ -f1); [ "$crate" = utils ] && pkg=zerokit_utils ||
 tname=$(basename $place .rs)
 log=$m/confirm.log; : > $log
 echo "== demo without change" >> $log
-cargo test -p $pkg --test $tname --offline >> $log 2>&1; r0=$?
+cargo test -p $pkg $DEMOFLAGS --test $tname --offline $DEMOARGS >> $log 2>&1; r0=$?
 git apply $m/${PATCHFILE:-patch.diff} || { echo "PATCH-FAIL $m"; exit 2; }
 echo "== demo with change" >> $log
-cargo test -p $pkg --test $tname --offline >> $log 2>&1; r1=$?
+cargo test -p $pkg $DEMOFLAGS --test $tname --offline $DEMOARGS >> $log 2>&1; r1=$?
 rm -f $wt/$place
 echo "== suite with change" >> $log
 cargo nextest run --workspace --no-fail-fast --tool-config-file pb:/w/lib/nextest.toml --profile pb --test-threads 8 --offline >> $log 2>&1; r2=$?
